@@ -109,7 +109,7 @@ def run(tier):
             name, src, mods, gl = progs[i]
             ck.violation("ConfigDivergence(hookfast)", {"program": name, "source": src, "modules": mods, "globals": gl,
                                                         "what": "outcome on hookfast differs from %s" % ref})
-    return ck.finish("programs: repository scripts, GC edge matrix, churn loops, generated profile programs; each run "
+    return ck.finish("programs: repository scripts, GC edge matrix and identity programs, churn loops, edge-value index / built-in / operator sweeps, the C13 string battery, generated profile programs; each run "
                      "on %d build configurations and compared (normalised output + outcome); non-trivial = distinct "
                      "program that ran and printed something" % len(cfgs))
 
